@@ -27,7 +27,7 @@ def setup(ctx):
         "(2 .. 1/4096, so float arithmetic is exact) incl. slow refills with capacity/rate >> 600 s; exhaustive gap "
         "sequences (alphabet 0, 1/8, 1, 4, 301, 601, 1300 s) up to length 5-6 for capacity<=2; random runs of "
         "100-3000 arrivals spanning several 300 s clean-up ticks with idle gaps around 600 s; concurrent bursts via "
-        "asyncio.gather. distinct = (capacity, rate, #addresses, gap-class multiset, decisions signature)."
+        "asyncio.gather; arrivals pre-scheduled on the timer heap so that bursts due exactly at a clean-up tick race the sweep (directed family with 2-4 addresses evictable in the same sweep, plus a third of the random runs). distinct = (capacity, rate, #addresses, gap-class multiset, decisions signature)."
     )
     ctx.assumptions = [
         "time is read through nauyaca.server.middleware.time.monotonic only (patched to the virtual clock)",
@@ -38,6 +38,7 @@ def setup(ctx):
     ctx.require("monitor", "cleanup_ticks", 50)
     ctx.require("monitor", "evictions_observed", 1)
     ctx.require("monitor", "projection_reruns", 20)
+    ctx.require("monitor", "scheduled_histories", 20)
 
 
 class VTime:
@@ -93,6 +94,43 @@ def run_history(cfg, events, count_evictions=None):
         loop.do(lambda: asyncio.ensure_future(rl.stop()))
         loop.settle()
         return out, ticks, evictions
+    finally:
+        M.time = old_time
+        close_loop(loop)
+
+
+def run_history_scheduled(cfg, events):
+    """Like run_history, but every arrival is put on the loop's timer heap *before* the loop runs
+    (loop.call_at), so arrivals due at the same instant as a clean-up tick genuinely compete with
+    the clean-up task for the ready queue instead of politely waiting until it has finished."""
+    from nauyaca.server import middleware as M
+
+    loop = new_loop()
+    old_time = M.time
+    M.time = VTime(loop)
+    results = {}
+    order = []
+    try:
+        rl = M.RateLimiter(M.RateLimitConfig(capacity=cfg["capacity"], refill_rate=cfg["rate"], retry_after=cfg["retry_after"]))
+        loop.do(rl.start)
+
+        async def one(idx, t, a):
+            r = await rl.process_request("gemini://x/", a, None)
+            results[idx] = (t, a, bool(r[0]), r[1])
+            order.append(idx)
+
+        idx = 0
+        for t, addrs in events:
+            for a in addrs:
+                loop.call_at(t, lambda idx=idx, t=t, a=a: asyncio.ensure_future(one(idx, t, a)))
+                idx += 1
+        end = (events[-1][0] if events else 0) + 1
+        loop.run_until(end)
+        ticks = int(loop.time() // 300)
+        loop.do(lambda: asyncio.ensure_future(rl.stop()))
+        loop.settle()
+        # decisions in the order the limiter actually took them
+        return [results[i] for i in order], ticks, 0
     finally:
         M.time = old_time
         close_loop(loop)
@@ -155,8 +193,15 @@ def gap_class(g):
     return ">600"
 
 
-def judge(ctx, cfg, events, label, dyadic=True):
-    decisions, ticks, evictions = run_history(cfg, events)
+def judge(ctx, cfg, events, label, dyadic=True, scheduled=False):
+    if scheduled:
+        decisions, ticks, evictions = run_history_scheduled(cfg, events)
+        ctx.count("monitor", "scheduled_histories")
+        # same-instant arrivals may be served in any order: compare per address (order within one
+        # address is preserved by call_at's FIFO tie-break), against the model on the same per-address order
+        events = [(d[0], [d[1]]) for d in decisions]
+    else:
+        decisions, ticks, evictions = run_history(cfg, events)
     ctx.count("monitor", "decisions", len(decisions))
     ctx.count("monitor", "cleanup_ticks", ticks)
     ctx.count("monitor", "evictions_observed", evictions)
@@ -230,6 +275,27 @@ def run(ctx):
             ctx.case((cap, rate, 1, tuple(sorted(set(gap_class(g) for g in gaps))), tuple(d[2] for d in decisions)), True,
                      sample={"config": cfg, "gaps": gaps, "decisions": [d[2] for d in decisions]})
     ctx.count("exhaustive_scope", f"capacity<=2 x rates(1,1/1024) x gaps^{L} over {GAPS}")
+    # ---- arrivals racing the clean-up sweep: several addresses become evictable in the same sweep
+    # (idle > 600 s and fully refilled) and bursts are due at exactly the tick instants
+    for cap, rate, naddr in itertools.product((1, 2, 3), (1 / 1024, 1 / 4096, 1 / 64), (2, 3, 4)):
+        k += 1
+        if not ctx.mine(k):
+            continue
+        addrs = [f"10.9.0.{i}" for i in range(naddr)]
+        cfg = {"capacity": cap, "rate": rate, "retry_after": 30}
+        full_at = 1.0 / rate + 1  # one token spent at t=0 is back by then
+        first_tick = (int(max(full_at, 601) // 300) + 1) * 300.0
+        events = [(0.0, list(addrs))]
+        for j in range(ctx.pick(3, 8)):
+            tick = first_tick + 300.0 * j
+            for who in (addrs[1:], list(reversed(addrs))):
+                ev = list(events)
+                ev.append((tick, [a for a in who for _ in range(cap + 2)]))
+                ev.append((tick + 0.125, [a for a in who for _ in range(cap + 1)]))
+                ev.append((tick + 1.0, [a for a in who for _ in range(cap)]))
+                decisions, seen = judge(ctx, cfg, ev, "tick-race", scheduled=True)
+                ctx.case(("tick-race", cap, rate, naddr, j, len(who), tuple(d[2] for d in decisions[-6:])), True,
+                         sample={"config": cfg, "events": [(t, len(a)) for t, a in ev], "decisions_tail": [d[2] for d in decisions[-8:]]})
     # ---- random long runs
     n = ctx.pick(260, 16000) // ctx.nshards
     for i in range(n):
@@ -252,7 +318,7 @@ def run(ctx):
             t += g
             who = [rng.choice(addrs) for _ in range(1 if rng.random() < 0.8 else rng.randint(2, 6))]
             events.append((t, who))
-        decisions, seen = judge(ctx, cfg, events, f"random:{mode}", dyadic=dyadic)
+        decisions, seen = judge(ctx, cfg, events, f"random:{mode}", dyadic=dyadic, scheduled=(i % 3 == 2))
         if i % 6 == 0:
             check_projection(ctx, cfg, events[:400], decisions[: sum(len(a) for _, a in events[:400])], seen)
         classes = tuple(sorted({gap_class(b[0] - a[0]) for a, b in zip(events, events[1:])}))
